@@ -436,12 +436,57 @@ func isNamedType(t types.Type, pkgSuffix, name string) bool {
 		return false
 	}
 	if canonType(n) != name {
-		return false
+		// a struct that the named type embeds by value (Deque{ringSpan{front, back}, ...}) is part of that object: its fields
+		// are the named type's own (promotion), and the rules ask for them under the outer name
+		return embeddedInNamed(n, pkgSuffix, name)
 	}
 	if n.Obj().Pkg() == nil {
 		return pkgSuffix == ""
 	}
 	return strings.HasSuffix(n.Obj().Pkg().Path(), pkgSuffix)
+}
+
+var embeddedMemo = map[string]bool{}
+
+// embeddedInNamed: the module's type pkgSuffix.name is a struct that embeds inner (a struct type of the same package) by value.
+func embeddedInNamed(inner *types.Named, pkgSuffix, name string) bool {
+	if inner.Obj().Pkg() == nil || pkgSuffix == "" || !strings.HasSuffix(inner.Obj().Pkg().Path(), pkgSuffix) {
+		return false
+	}
+	if _, isStruct := inner.Underlying().(*types.Struct); !isStruct {
+		return false
+	}
+	key := inner.Obj().Pkg().Path() + "." + inner.Obj().Name() + "<" + name
+	if v, ok := embeddedMemo[key]; ok {
+		return v
+	}
+	res := false
+	scope := inner.Obj().Pkg().Scope()
+	for _, nm := range scope.Names() {
+		tn, ok := scope.Lookup(nm).(*types.TypeName)
+		if !ok {
+			continue
+		}
+		outer, ok := tn.Type().(*types.Named)
+		if !ok || canonType(outer) != name {
+			continue
+		}
+		st, ok := outer.Underlying().(*types.Struct)
+		if !ok {
+			continue
+		}
+		for i := 0; i < st.NumFields(); i++ {
+			f := st.Field(i)
+			if !f.Embedded() {
+				continue
+			}
+			if fn, ok := f.Type().(*types.Named); ok && fn.Origin() == inner.Origin() {
+				res = true
+			}
+		}
+	}
+	embeddedMemo[key] = res
+	return res
 }
 
 // edgeDominates reports whether control can reach block b only through the edge from -> from.Succs[idx].
